@@ -8,13 +8,14 @@ package command
 // wire / recording scanner and a scripted request stream. Used by C07, C08, C12, C16.
 
 import (
-	"io"
 	"bytes"
 	"context"
 	"errors"
 	"fmt"
+	"io"
 	"sort"
 	"strings"
+	"syscall"
 	"time"
 
 	"github.com/google/gopacket"
@@ -158,7 +159,17 @@ func (p *vPipe) WritePacketData(b []byte) (err error) {
 		i := vFrameIndex(b)
 		vs.Observe("write", "%d", i)
 		if i >= 0 && i < len(p.pattern) && p.pattern[i] == 3 {
-			err = fmt.Errorf("write-%d", i)
+			// the failure carries a real errno where code might look for one: would-block for odd frames,
+			// no-buffer-space for every fourth, a plain error otherwise; each is one failed write, to be
+			// reported once, and the frame is not to be sent again or dropped silently
+			switch {
+			case i%2 == 1:
+				err = vWriteErr{i, syscall.EAGAIN}
+			case i%4 == 2:
+				err = vWriteErr{i, syscall.ENOBUFS}
+			default:
+				err = vWriteErr{i, nil}
+			}
 		}
 	})
 	if p.slowWrite {
@@ -167,6 +178,14 @@ func (p *vPipe) WritePacketData(b []byte) (err error) {
 	vs.Observe("write.ret", "")
 	return
 }
+
+type vWriteErr struct {
+	i     int
+	errno error
+}
+
+func (e vWriteErr) Error() string { return fmt.Sprintf("write-%d", e.i) }
+func (e vWriteErr) Unwrap() error { return e.errno }
 
 func (p *vPipe) ReadPacketData() ([]byte, *gopacket.CaptureInfo, error) {
 	<-p.release
@@ -177,7 +196,7 @@ func (p *vPipe) Packets(ctx context.Context, r *scan.Range) <-chan *packet.Buffe
 	return p.src.Packets(ctx, r)
 }
 func (p *vPipe) ProcessPacketData(data []byte, ci *gopacket.CaptureInfo) error { return nil }
-func (p *vPipe) Results() <-chan scan.Result                                 { return p.results.Chan() }
+func (p *vPipe) Results() <-chan scan.Result                                   { return p.results.Chan() }
 
 // vDoneTap lets the harness observe the moment the engine signals completion.
 type vDoneTap struct {
